@@ -2456,3 +2456,8 @@ class ClassHistoryStream(Stream):
 
 
 PROP.streams.append(ClassHistoryStream())
+
+# wrappers / keys whose result is None or falsy: the at-most-once clause must not depend on the
+# value of the result (harness/falsy_results.py, shared with C12)
+from ..falsy_results import FalsyResults  # noqa: E402
+PROP.streams.append(FalsyResults("cse-falsy-results", "cse-result-recomputed"))
